@@ -39,6 +39,27 @@ Theorem C08_gather :
 Proof. exact gather_all_orders. Qed.
 Print Assumptions C08_gather.
 
+(* the same when some sources are already finished at the time gather_futures is
+   called (their worker was faster than the submitting thread): on_finish runs for
+   them inside add_done_callback, so they count as having completed first, in
+   source order; [sigma] ranges over the sources that were still pending. In
+   particular a source that has already failed fails the outer future at once. *)
+Theorem C08_gather_mixed :
+  forall apply_fn apply_handler fuel h source results (was_done : fid -> bool) sigma,
+    3 <= fuel ->
+    fids_of source <> [] -> NoDup (fids_of source) ->
+    (forall f, In f (fids_of source) ->
+       futs h f = (if was_done f then Done (results f) else Pending []) /\ f < next_fid h) ->
+    blocked h = false -> out_of_fuel h = false ->
+    NoDup sigma -> incl sigma (filter (fun f => negb (was_done f)) (fids_of source)) ->
+    exists outer h1,
+      gather apply_fn apply_handler fuel h source = (Ret (VFut outer), h1) /\
+      let hs := fold_left (fun h f => complete apply_fn apply_handler fuel h f (results f)) sigma h1 in
+      futs hs outer = outer_spec results source (next_g h) (filter was_done (fids_of source) ++ sigma) /\
+      blocked hs = false /\ out_of_fuel hs = false.
+Proof. exact gather_mixed_orders. Qed.
+Print Assumptions C08_gather_mixed.
+
 (* completed exactly once: once the outer future is done no further completion
    of a source changes it *)
 Theorem C08_gather_once :
@@ -105,7 +126,27 @@ Theorem C08_unwrap :
 Proof. exact unwrap_all_orders. Qed.
 Print Assumptions C08_unwrap.
 
-(* ---- layer 2 ---- *)
+(* the same for a nest some of whose members are already finished when
+   unwrap_future is called *)
+Theorem C08_unwrap_mixed :
+  forall apply_fn apply_handler fuel h res (was_done : fid -> bool) ss sigma,
+    is_nest res ss -> NoDup ss ->
+    (forall s, In s ss -> futs h s = (if was_done s then Done (res s) else Pending []) /\ s < next_fid h) ->
+    length ss + 1 < fuel -> NoDup sigma -> incl sigma (filter (fun s => negb (was_done s)) ss) ->
+    exists h1,
+      unwrap apply_fn apply_handler fuel h (VFut (hd 0 ss)) = (VFut (next_fid h), h1) /\
+      let hs := fold_left (fun h f => complete apply_fn apply_handler fuel h f (res f)) sigma h1 in
+      ((forall s, In s ss -> was_done s = true \/ In s sigma) -> futs hs (next_fid h) = Done (final res ss)) /\
+      ((exists s, In s ss /\ was_done s = false /\ ~ In s sigma) -> futs hs (next_fid h) = Pending []) /\
+      same_meta h hs.
+Proof. exact unwrap_mixed_orders. Qed.
+Print Assumptions C08_unwrap_mixed.
+
+(* ---- layer 2 ----
+   In a program [defer = Some (n, e)] says that the first e of the n+1 calls a
+   resolver submits complete before submit returns, so the theorems below hold
+   for every choice of calls that finish "eagerly" as well as for every order
+   of the others. *)
 
 (* for every admissible complete schedule the final data is the blocking
    (depth-first, BlockingExecutor) data, nothing is left running, and the log --
@@ -167,8 +208,8 @@ Print Assumptions C08_blocking_configs_fail.
 Local Open Scope N_scope.
 Example C08_example_confluence :
   let leaf k d z := Fld k d false (BInt z) in
-  let pr := Prog false (FCons (Fld 0 (Some O) false (BObj (FCons (leaf 1 (Some 1%nat) 11%Z) (FCons (leaf 2 None 12%Z) FNil))))
-                       (FCons (Fld 3 (Some O) true BErr) (FCons (leaf 4 (Some O) 14%Z) FNil))) in
+  let pr := Prog false (FCons (Fld 0 (Some (O, O)) false (BObj (FCons (leaf 1 (Some (1%nat, O)) 11%Z) (FCons (leaf 2 None 12%Z) FNil))))
+                       (FCons (Fld 3 (Some (O, O)) true BErr) (FCons (leaf 4 (Some (O, O)) 14%Z) FNil))) in
   let sigma := [([4], O); ([0], O); ([0; 1], O); ([3], O); ([0; 1], 1%nat)] in
   match run sigma pr with
   | Some s => pending (ms s) = [] /\
@@ -179,11 +220,24 @@ Example C08_example_confluence :
 Proof. vm_compute. repeat split. Qed.
 
 Example C08_example_unexpected :
-  let pr := Prog false (FCons (Fld 0 (Some O) false (BExn 7)) (FCons (Fld 1 (Some O) false (BExn 8))
-                       (FCons (Fld 2 (Some O) false (BInt 1%Z)) FNil))) in
+  let pr := Prog false (FCons (Fld 0 (Some (O, O)) false (BExn 7)) (FCons (Fld 1 (Some (O, O)) false (BExn 8))
+                       (FCons (Fld 2 (Some (O, O)) false (BInt 1%Z)) FNil))) in
   fst (bs_prog pr) = None /\
   match run [([1], O); ([2], O); ([0], O)] pr with
   | Some s => pending (ms s) = [] /\ term s = Exn 8 /\ raised (ms s) = [8; 7]
+  | None => False
+  end.
+Proof. vm_compute. repeat split. Qed.
+
+(* a call that fails before its sibling is gathered: the gathered future fails
+   at once and the sibling's later completion is harmless *)
+Example C08_example_eager_failure :
+  let pr := Prog false (FCons (Fld 0 (Some (O, 1%nat)) false (BExn 7))
+                       (FCons (Fld 1 (Some (O, O)) false (BInt 1%Z)) FNil)) in
+  fst (bs_prog pr) = None /\
+  term (start pr) = Exn 7 /\ pending (ms (start pr)) = [([1], O)] /\
+  match run [([1], O)] pr with
+  | Some s => pending (ms s) = [] /\ term s = Exn 7 /\ orphans (ms s) = []
   | None => False
   end.
 Proof. vm_compute. repeat split. Qed.
